@@ -650,7 +650,7 @@ func configsA() []string {
 func partA(r *eng.Run) {
 	th := r.Thorough()
 	depth := eng.Pick(r, 4, 6)
-	maxStates := eng.Pick(r, 0, 1500) // per configuration and level (thorough)
+	maxStates := eng.Pick(r, 0, 4000) // per configuration and level (thorough)
 	cfgs := configsA()
 	pool := &poolA{n: runtime.NumCPU(), bin: os.Getenv("VERIF_BIN"), r: r}
 	defer pool.stop()
